@@ -111,6 +111,9 @@ dataLoop:
 		}
 
 		var shards []ordertypes.Shard
+		// shards the renewal order lists: a migration still pending is not renewed (see below) and is
+		// attached to the renewal order when it completes
+		renewShards := make([]uint64, 0)
 		for _, id := range order.Shards {
 			shard, found := k.order.GetShard(ctx, id)
 			if !found {
@@ -131,6 +134,9 @@ dataLoop:
 
 			}
 			shards = append(shards, shard)
+			if shard.Status != ordertypes.ShardMigrating {
+				renewShards = append(renewShards, id)
+			}
 		}
 
 		if order.Status != ordertypes.OrderCompleted {
@@ -176,7 +182,7 @@ dataLoop:
 			Duration:  proposal.Duration,
 			Status:    order.Status,
 			Replica:   order.Replica,
-			Shards:    order.Shards,
+			Shards:    renewShards,
 			Amount:    amount,
 			Size_:     order.Size_,
 			Operation: 3,
